@@ -568,7 +568,10 @@ protected:
         SegmentData(Segment &s) : slope(s.slope), intercept(s.intercept) {}
 
         inline size_t operator()(const K &origin, const K &k) const {
-            auto pos = int64_t(slope * (k - origin)) + intercept;
+            // Saturate before converting: the product is unbounded for keys far beyond this segment (undefined conversion)
+            constexpr Floating max_pos = Floating(std::numeric_limits<decltype(intercept)>::max());
+            auto p = slope * (k - origin);
+            auto pos = int64_t(p < max_pos ? p : max_pos) + intercept;
             return pos > 0 ? size_t(pos) : 0ull;
         }
     };
